@@ -147,7 +147,8 @@ func (c *Class) Evaluation(
 
 	// include ObjectClass
 	if ctx.IsDefineRound() {
-		classNode := base.ClassNode{Frame: ctx.GetFrame(), Class: class}
+		// under the node of the class itself, where its superclass edge goes too
+		classNode := base.ClassNode{Frame: nextFrame, Class: class}
 		objectClassNode := base.ClassNode{Frame: "Builtin", Class: ""}
 
 		base.ClassInheritanceMap[classNode] =
@@ -180,6 +181,9 @@ func (c *Class) Evaluation(
 		// class names of every other frame)
 		if base.IsClassDefined([]string{}, parentClass) && parentNamespace == "" {
 			parentFrame = "Builtin"
+		} else if lexicalFrame, ok := base.LexicalClassFrame(ctx.GetFrame(), parentClass); ok && parentFrame == "" && parentNamespace == "" {
+			// an unqualified parent defined in an enclosing namespace
+			parentFrame = lexicalFrame
 		} else {
 			parentFrame = base.CalculateFrame(parentFrame, parentNamespace)
 		}
